@@ -959,5 +959,211 @@ theorem mapM_ok_of_forall {α β ε} (f : α → Except ε β) : ∀ (cs : List 
       | succ j =>
         exact hpt j c' r' (by simpa using hc') (by simpa using hr')
 
+/-! ### chunks, gather, re-ordering -/
+
+theorem effChunk_pos {n nProc cs : Nat} (hcs : 1 ≤ cs) : 1 ≤ effChunk n nProc cs := by
+  unfold effChunk; omega
+
+theorem slice_append_drop {α} (xs : List α) {r0 r1 : Nat} (h01 : r0 ≤ r1) (h1 : r1 ≤ xs.length) :
+    slice xs r0 r1 ++ xs.drop r1 = xs.drop r0 := by
+  unfold slice
+  have hlen : r0 ≤ (xs.take r1).length := by simp; omega
+  rw [← List.drop_append_of_le_length hlen, List.take_append_drop]
+
+theorem chunksFrom_cover {α} (xs : List α) (cs : Nat) (hcs : 1 ≤ cs) :
+    ∀ (fuel r0 : Nat), r0 ≤ xs.length → xs.length - r0 ≤ fuel →
+      (chunksFrom xs.length cs fuel r0).flatMap (fun r => slice xs r.1 r.2) = xs.drop r0
+  | 0, r0, h0, hf => by
+    have : r0 = xs.length := by omega
+    subst this; simp [chunksFrom]
+  | fuel+1, r0, h0, hf => by
+    simp only [chunksFrom]
+    by_cases hge : r0 ≥ xs.length
+    · have : r0 = xs.length := by omega
+      subst this; simp
+    · simp only [hge, if_false, List.flatMap_cons]
+      have h1 : min xs.length (r0 + cs) ≤ xs.length := by omega
+      have h01 : r0 ≤ min xs.length (r0 + cs) := by omega
+      rw [chunksFrom_cover xs cs hcs fuel (min xs.length (r0 + cs)) h1 (by omega)]
+      exact slice_append_drop xs h01 h1
+
+/-- the chunks tile the rows: concatenating the slices gives the whole list back -/
+theorem chunks_cover {α} (xs : List α) (cs : Nat) (hcs : 1 ≤ cs) :
+    (chunks xs.length cs).flatMap (fun r => slice xs r.1 r.2) = xs := by
+  have := chunksFrom_cover xs cs hcs xs.length 0 (by omega) (by omega)
+  simpa [chunks] using this
+
+theorem flatMap_range'_getD {α} : ∀ (parts pre : List (List α)),
+    (List.range' pre.length parts.length).flatMap (fun k => ((pre ++ parts)[k]?).getD []) =
+      parts.flatten
+  | [], _ => by simp
+  | p :: ps, pre => by
+    have ih := flatMap_range'_getD ps (pre ++ [p])
+    simp only [List.length_append, List.length_cons, List.length_nil, List.append_assoc,
+      List.cons_append, List.nil_append] at ih
+    simp only [List.length_cons, List.range'_succ, List.flatMap_cons, List.flatten_cons]
+    rw [ih]
+    simp
+
+theorem gather_range {α} (parts : List (List α)) :
+    gather parts (List.range parts.length) = parts.flatten := by
+  have := flatMap_range'_getD parts []
+  simpa [gather, List.range_eq_range'] using this
+
+/-- whatever the order in which the chunk results arrive, the gathered blob
+is a permutation of their concatenation -/
+theorem gather_perm {α} (parts : List (List α)) (order : List Nat)
+    (h : order.Perm (List.range parts.length)) : (gather parts order).Perm parts.flatten := by
+  rw [← gather_range parts]
+  exact List.Perm.flatMap_right _ h
+
+theorem find_of_nodup_keys {α} (key : α → Nat) : ∀ (xs : List α) (r : α),
+    (xs.map key).Nodup → r ∈ xs → xs.find? (fun x => key x == key r) = some r
+  | [], _, _, h => by cases h
+  | x :: xs, r, hn, h => by
+    simp only [List.map_cons, List.nodup_cons] at hn
+    rcases List.mem_cons.mp h with h | h
+    · subst h; simp [List.find?]
+    · have hne : key x ≠ key r := by
+        intro he
+        exact hn.1 (List.mem_map.mpr ⟨r, h, he.symm⟩)
+      have : (key x == key r) = false := by simpa using hne
+      simp only [List.find?, this]
+      exact find_of_nodup_keys key xs r hn.2 h
+
+theorem mapM_keys_ok {α ε} (key : α → Nat) (F : Nat → Except ε α) : ∀ (target : List α),
+    (∀ r ∈ target, F (key r) = .ok r) → (target.map key).mapM F = .ok target
+  | [], _ => rfl
+  | r :: rs, h => by
+    simp only [List.map_cons, List.mapM_cons, h r (by simp),
+      mapM_keys_ok key F rs (fun x hx => h x (List.mem_cons_of_mem _ hx))]
+    rfl
+
+/-- `re_order_blob`: any permutation of records with distinct ids comes back in
+the order of the id list -/
+theorem reorderBlob_perm (ids : List CellId) (blob target : List Record)
+    (hperm : blob.Perm target) (hids : target.map (·.cellId) = ids) (hnd : ids.Nodup) :
+    reorderBlob ids blob = .ok target := by
+  unfold reorderBlob
+  rw [← hids]
+  apply mapM_keys_ok (fun r : Record => r.cellId)
+  intro r hr
+  have hperm' : blob.reverse.Perm target := (List.reverse_perm blob).trans hperm
+  have hmem : r ∈ blob.reverse := hperm'.mem_iff.mpr hr
+  have hkeys : (blob.reverse.map (·.cellId)).Nodup := by
+    have := (hperm'.map (·.cellId)).nodup_iff
+    rw [this, hids]; exact hnd
+  have := find_of_nodup_keys (fun r : Record => r.cellId) blob.reverse r hkeys hmem
+  simp only [this]
+
+theorem attachIds_ok : ∀ (ids : List CellId) (ws : List (List (Level × Entry))),
+    ids.length = ws.length →
+    attachIds ids ws = .ok (List.zipWith (fun id w => ({ cellId := id, levels := w } : Record)) ids ws)
+  | [], [], _ => rfl
+  | [], _ :: _, h => by simp at h
+  | _ :: _, [], h => by simp at h
+  | i :: ids, w :: ws, h => by
+    simp only [attachIds, attachIds_ok ids ws (by simpa using h), List.zipWith_cons_cons]
+
+theorem mapM_eq_ok_map {α β ε} (f : α → Except ε β) (g : α → β) : ∀ (cs : List α),
+    (∀ c ∈ cs, f c = .ok (g c)) → cs.mapM f = .ok (cs.map g)
+  | [], _ => rfl
+  | c :: cs, h => by
+    simp only [List.mapM_cons, h c (by simp),
+      mapM_eq_ok_map f g cs (fun x hx => h x (List.mem_cons_of_mem _ hx)), List.map_cons]
+    rfl
+
+/-- the value of the one-cell walk (`[]` if it failed; it does not on a
+well-formed tree, see `walk_path`) -/
+def walkD {κ} (t : RawTree) (vote : Oracle κ) (c : κ) : List (Level × Entry) :=
+  match walk t vote c with
+  | .ok r => r
+  | .error _ => []
+
+theorem walk_eq_walkD {κ} {t : RawTree} {vote : Oracle κ} (hwf : wfb t = true)
+    (hv : VoteOK t vote) (c : κ) : walk t vote c = .ok (walkD t vote c) := by
+  obtain ⟨r, hr, _⟩ := walk_path hwf hv c
+  simp [walkD, hr]
+
+/-- the record of one cell before re-ordering and backfilling -/
+def mkRecord {κ} (t : RawTree) (vote : Oracle κ) (id : CellId) (c : κ) : Record :=
+  { cellId := id, levels := walkD t vote c }
+
+theorem runChunk_eq {κ} {t : RawTree} {vote : Oracle κ} (hwf : wfb t = true) (hv : VoteOK t vote)
+    (ids : List CellId) (cells : List κ) (hlen : ids.length = cells.length) (r : Nat × Nat) :
+    runChunk t vote ids cells r =
+      .ok (slice (List.zipWith (mkRecord t vote) ids cells) r.1 r.2) := by
+  unfold runChunk
+  rw [runLevelLoop_eq_mapM_walk t vote _ hwf hv,
+    mapM_eq_ok_map (walk t vote) (walkD t vote) _ (fun c _ => walk_eq_walkD hwf hv c)]
+  simp only []
+  rw [attachIds_ok _ _ (by simp [slice, hlen])]
+  simp only [slice, List.take_zipWith, List.drop_zipWith, List.zipWith_map_right]
+  rfl
+
+theorem runChunks_eq {κ} {t : RawTree} {vote : Oracle κ} (hwf : wfb t = true) (hv : VoteOK t vote)
+    (ids : List CellId) (cells : List κ) (hlen : ids.length = cells.length) :
+    ∀ (rs : List (Nat × Nat)), runChunks t vote ids cells rs =
+      .ok (rs.map (fun r => slice (List.zipWith (mkRecord t vote) ids cells) r.1 r.2))
+  | [] => rfl
+  | r :: rs => by
+    simp only [runChunks, runChunk_eq hwf hv ids cells hlen r,
+      runChunks_eq hwf hv ids cells hlen rs, List.map_cons]
+
+theorem map_cellId_zipWith {κ} (t : RawTree) (vote : Oracle κ) :
+    ∀ (ids : List CellId) (cells : List κ), ids.length = cells.length →
+      (List.zipWith (mkRecord t vote) ids cells).map (fun r => r.cellId) = ids
+  | [], [], _ => rfl
+  | [], _ :: _, h => by simp at h
+  | _ :: _, [], h => by simp at h
+  | i :: is, c :: cs, h => by
+    simp only [List.zipWith_cons_cons, List.map_cons,
+      map_cellId_zipWith t vote is cs (by simpa using h)]
+    rfl
+
+theorem markDirect_cellId (h : List Level) (r : Record) : (markDirect h r).cellId = r.cellId := rfl
+
+/-- **The pipeline is a per-cell map.**  For the tree `t` the run uses
+(well-formed), an oracle that returns children, distinct ids, at least one
+worker, chunk size >= 1 and ANY order in which the chunk results are gathered:
+`output["results"]` is, cell by cell in obs order, the backfilled, flagged walk
+of that cell, carrying that cell's id. -/
+theorem mapPipeline_spec {κ} (t0 t : RawTree) (cfg : Config) (vote : Oracle κ)
+    (ids : List CellId) (cells : List κ) (order : List Nat)
+    (hrun : runTree t0 cfg = .ok t) (hwf : wfb t = true) (hv : VoteOK t vote)
+    (hlen : ids.length = cells.length) (hnd : ids.Nodup)
+    (hproc : 1 ≤ cfg.nProc) (hcs : 1 ≤ cfg.chunkSize)
+    (horder : order.Perm (List.range
+      (chunks cells.length (effChunk cells.length cfg.nProc cfg.chunkSize)).length)) :
+    mapPipeline t0 cfg vote ids cells order =
+      backfill t0.dropCells
+        ((List.zipWith (mkRecord t vote) ids cells).map (markDirect t.hierarchy)) := by
+  have hcs' := effChunk_pos (n := cells.length) (nProc := cfg.nProc) hcs
+  have hp0 : (cfg.nProc == 0) = false := by
+    have : cfg.nProc ≠ 0 := by omega
+    simpa using this
+  have hc0 : (effChunk cells.length cfg.nProc cfg.chunkSize == 0) = false := by
+    have : effChunk cells.length cfg.nProc cfg.chunkSize ≠ 0 := by omega
+    simpa using this
+  let recs := List.zipWith (mkRecord t vote) ids cells
+  have hrl : recs.length = cells.length := by simp [recs, hlen]
+  unfold mapPipeline
+  simp only [hrun, hp0, hc0, Bool.false_eq_true, if_false, runChunks_eq hwf hv ids cells hlen]
+  have hflat : ((chunks cells.length (effChunk cells.length cfg.nProc cfg.chunkSize)).map
+      (fun r => slice recs r.1 r.2)).flatten = recs := by
+    have := chunks_cover recs _ hcs'
+    rw [hrl, List.flatMap_def] at this
+    exact this
+  have hperm := gather_perm ((chunks cells.length (effChunk cells.length cfg.nProc cfg.chunkSize)).map
+      (fun r => slice recs r.1 r.2)) order (by simpa using horder)
+  rw [hflat] at hperm
+  have hids : (recs.map (markDirect t.hierarchy)).map (·.cellId) = ids := by
+    simp only [List.map_map, recs]
+    have : ((fun r : Record => r.cellId) ∘ markDirect t.hierarchy) = fun r => r.cellId := by
+      funext r; rfl
+    rw [this]
+    exact map_cellId_zipWith t vote ids cells hlen
+  rw [reorderBlob_perm ids _ (recs.map (markDirect t.hierarchy)) (hperm.map _) hids hnd]
+
 end LevelLoop
 end CTM
